@@ -26,7 +26,7 @@ def copy_sources(dst):
         rel = os.path.relpath(dp, REPO)
         os.makedirs(os.path.join(dst, rel), exist_ok=True)
         for f in fn:
-            if f.endswith(('.py', '.pyx', '.pxd')):
+            if f.endswith(('.py', '.pyx', '.pxd', '.toml', '.zip', '.json')):
                 shutil.copy2(os.path.join(dp, f), os.path.join(dst, rel, f))
 
 
